@@ -8,6 +8,18 @@ TB = ("Lean 4.33 kernel; axioms propext, Classical.choice, Quot.sound only (audi
       "Lean runtime executing nvdriver for the correspondence only.")
 
 CHECKS = {
+    "C06": dict(
+        text=("Lean 4 theorems over the gate logic of run_shadow_tests and phase 5 of compile_file (per shadow block: skipped or not, number of "
+              "false assertions counted while its body and callees ran): the run fails iff some executed block saw a false assertion, for "
+              "any number and order of blocks (gate_iff, induction over the block list - a later passing block cannot undo a failure); a "
+              "failing run exits non-zero before transpilation, a passing run's status is decided by later phases only (driver_gate); every "
+              "failing block is named once, in order, with its count (failures_named). The evaluator that produces the counts is not "
+              "modelled here; assertion truth values are known by construction of the generated programs. Tie: nanoc's exit status, "
+              "'Shadow test .. FAILED: n' lines and existence of the -o file are compared with the model on programs with the false "
+              "assertion first/last/in a loop/in a callee/under an if/in a skipped block."),
+        note=TB + " Partial: the counts fed to the gate come from eval.c, which is covered by C03's correspondence, not by this proof; imported modules' shadow blocks are not generated yet.",
+        technique="Lean 4 proof (fold invariant over the shadow-block list) + differential correspondence against nanoc",
+        design="6/C06"),
     "C08": dict(
         text=("Lean 4 theorems for every array length and every 64-bit index: on each engine's range test an element is produced only for an "
               "index in [0, len) and it is the element at that index, everything else stops (oob_stops); 2^32+k and negative indices are "
